@@ -14,10 +14,11 @@ import (
 	"strings"
 	"sync"
 	"sync/atomic"
-	"testing/synctest"
 	"time"
 
 	"github.com/whoisnian/glb/tasklane"
+
+	"verif/harness/internal/rt"
 )
 
 type TaskKind int
@@ -147,6 +148,7 @@ type Program struct {
 	Abrupt              bool          // New, a few pushes, cancel, Wait - back to back on one goroutine, without letting the lane settle; Ops are ignored
 	BornDone            bool          // the lane is created on a context that is already done
 	Sibling             bool          // a second TaskLane lives on the same context, with idle workers and a little work of its own
+	Long                bool          // thousands of steps: not watched for spinning goroutines (see RunInBubble)
 	Streak              int           // the program starts with that many panicking tasks in a row on lane 0 (statistics only)
 	Ops                 []Op
 }
@@ -512,7 +514,7 @@ func (s *sim) checkStatus(where string) *tasklane.LaneStatus {
 	return st
 }
 
-// quiescent is called right after synctest.Wait(): every other goroutine of the bubble is durably blocked.
+// quiescent is called right after rt.Quiesce(): every other goroutine of the bubble is durably blocked.
 func (s *sim) quiescent(where string) {
 	s.res.QuiescentChecks++
 	type tsnap struct {
@@ -645,7 +647,7 @@ func (s *sim) push(t *task, producer bool) {
 		// compare PendingTask around the call only from a quiescent state: a lane goroutine that was just thawed
 		// may still be on its way out (it bumps the hand-over counter before it notices the cancel), and that must
 		// not be mistaken for this PushTask having enqueued something
-		synctest.Wait()
+		rt.Quiesce()
 		before = s.tl.Status().PendingTask
 	}
 	err := s.tl.PushTask(t.wrap(), t.lane)
@@ -699,7 +701,7 @@ func (s *sim) abrupt() {
 	}
 	s.mu.Unlock()
 	time.Sleep(10 * time.Second)
-	synctest.Wait()
+	rt.Quiesce()
 	s.mu.Lock()
 	for i, t := range s.tasks {
 		if i < len(counts) && t.count.Load() != counts[i] {
@@ -831,7 +833,7 @@ func Run(p Program) (res Result) {
 		case OpOpen:
 			s.open(op.Gate)
 		case OpSettle:
-			synctest.Wait()
+			rt.Quiesce()
 			s.quiescent(fmt.Sprintf("step %d (settle)", i))
 		case OpAdvance:
 			time.Sleep(op.D)
@@ -857,13 +859,13 @@ func Run(p Program) (res Result) {
 			s.thaw()
 		case OpCancel:
 			if !s.cancelled.Load() {
-				synctest.Wait() // make the state in which the cancel lands well defined
+				rt.Quiesce() // make the state in which the cancel lands well defined
 				s.noteCancelState()
 				s.cancel()
 				s.cancelled.Store(true)
 				s.res.Cancelled = true
 				s.pushRightAfterCancel()
-				synctest.Wait()
+				rt.Quiesce()
 				s.quiescent(fmt.Sprintf("step %d (right after cancel)", i))
 			}
 		}
@@ -917,7 +919,7 @@ func (s *sim) thaw() {
 func (s *sim) shutdown(maxSleep time.Duration) {
 	big := maxSleep + 10*time.Second
 	// 1. with a live context: release everything and check that nothing accepted is left behind
-	synctest.Wait()
+	rt.Quiesce()
 	s.quiescent("before shutdown")
 	if p := s.p; p.Deadline > 0 && !s.cancelled.Load() && s.ctx.Err() != nil {
 		s.cancelled.Store(true)
@@ -929,7 +931,7 @@ func (s *sim) shutdown(maxSleep time.Duration) {
 		s.openAll()
 		if s.p.Deadline == 0 || time.Since(s.start)+big < s.p.Deadline {
 			time.Sleep(big)
-			synctest.Wait()
+			rt.Quiesce()
 			s.quiescent("final, context live, all gates open, time advanced")
 			s.mu.Lock()
 			for _, t := range s.tasks {
@@ -946,13 +948,13 @@ func (s *sim) shutdown(maxSleep time.Duration) {
 			}
 			s.mu.Unlock()
 		}
-		synctest.Wait()
+		rt.Quiesce()
 		s.noteCancelState()
 		s.cancel()
 		s.cancelled.Store(true)
 		s.res.Cancelled = true
 		s.pushRightAfterCancel()
-		synctest.Wait()
+		rt.Quiesce()
 		s.quiescent("right after the final cancel")
 	}
 	// 2. after the cancel: every new PushTask is refused
@@ -1024,7 +1026,7 @@ func (s *sim) shutdown(maxSleep time.Duration) {
 	s.mu.Unlock()
 	// 4. after Wait has returned nothing is ever started
 	time.Sleep(big)
-	synctest.Wait()
+	rt.Quiesce()
 	s.mu.Lock()
 	for i, t := range s.tasks {
 		if i < len(counts) && t.count.Load() != counts[i] {
